@@ -6,7 +6,7 @@ import writemodel as wm
 
 PROP = "C11"
 MODEL_TARGETS = ["Corr/WriteShow.vo"]
-THEOREMS = ["C11_second_write_same_text_partial", "C11_second_write_same_text_nowrap", "C11_standardize_idem", "C11_values_fixed", "C11_refreshed_is_text", "C11_refreshed_shapes", "C11_refresh_idem_values", "C11_data_tokens_fixed", "C11_cell_text_fixed", "C11_column_text_cycles", "C11_iter", "C11_iter_from_fix"]
+THEOREMS = ["C11_second_write_same_text_partial", "C11_second_write_same_text_nowrap", "C11_standardize_idem", "C11_values_fixed", "C11_refreshed_is_text", "C11_refreshed_shapes", "C11_refresh_idem_values", "C11_data_tokens_fixed", "C11_cell_text_fixed", "C11_column_text_cycles", "C11_iter", "C11_iter_from_fix", "C11_reread_fixed_point_partial"]
 ASSUMPTIONS = [
     "oracle: float(fmt % x) is a fixed point of x -> float(fmt % x) (printing a printed value again gives the same text)",
     "composition through the header grammar (C04) and the data round trip (C01) is covered by the correspondence, not by a single theorem",
